@@ -13,7 +13,7 @@ from ident_common import hx, unhx, identgen
 
 RUSTLIB = os.path.join(HARNESS, "ident-run", "rustlib")
 LIBTGT = os.path.join(BUILD, "identlib")
-WORK = os.path.join(BUILD, "ident-rust")
+WORK = os.path.join(BUILD, "ident-rust", str(os.getpid()))      # per process: concurrent runs must not share files
 OPTS = ["stubs", "stubs,own=borrowing", "stubs,std", "stubs,merge", "stubs,raw",
         "stubs,map=" + hx("std::collections::HashMap")]
 OPTS_THOROUGH_CORPUS = OPTS + ["stubs,own=borrowing-dup"]     # the mode crates/test declares partly broken; corpus only
@@ -211,8 +211,8 @@ def run(c):
     if not rmeta or not model: return
     phase("native wit-bindgen rmeta")
     # ---------------------------------------------------------------- B: worlds
-    os.makedirs(WORK, exist_ok=True)
-    for f in glob.glob(os.path.join(WORK, "*")): os.unlink(f)
+    import shutil
+    shutil.rmtree(WORK, ignore_errors=True); os.makedirs(WORK, exist_ok=True)
     jobs = []       # dict(wit|path, world, opts, meta, origin)
     cp = os.path.join(VERIF, "corpus", "C09.txt")
     if os.path.exists(cp):
@@ -268,6 +268,7 @@ def run(c):
         if okc: os.unlink(p)
         return ("ok" if okc else "rejected", diags)
     res = ic.parallel(work, range(len(jobs)))
+    shutil.rmtree(WORK, ignore_errors=True)
     phase("rustc")
     c.cov["phase_seconds"] = phases
     hist = collections.Counter()
